@@ -515,6 +515,32 @@ func mutexHook(p unsafe.Pointer, kind int) {
 	}
 }
 
+// tryHook decides TryLock / TryRLock in the gate model (never blocks).
+//
+//go:norace
+func tryHook(p unsafe.Pointer, kind int) int {
+	if !st.active {
+		return 2
+	}
+	st.gateCalls++
+	st.gateCallsOpen++
+	gt := &st.gates[gateFor(p)]
+	switch kind {
+	case 0:
+		if gt.state == 0 && gt.readers == 0 {
+			gt.state, gt.owner = 1, st.cur
+			return 1
+		}
+	case 2:
+		if gt.state == 0 && gt.writersWaiting == 0 {
+			gt.readers++
+			return 1
+		}
+	}
+	st.gateContention++
+	return 0
+}
+
 // Result of the concurrent phase.
 type Result struct {
 	Deadlock, StepCap, Watchdog, LogOverflow bool
@@ -636,6 +662,7 @@ func Run(bodies []func(), seed uint64, pol Policy, replay [][]Decision, watchdog
 	field.VerifSimYield = yieldHook
 	field.VerifSimOnceDo = onceDo
 	field.VerifSimMutex = mutexHook
+	field.VerifSimTry = tryHook
 	var wg sync.WaitGroup
 	for i := range bodies {
 		wg.Add(1)
@@ -664,6 +691,7 @@ func Run(bodies []func(), seed uint64, pol Policy, replay [][]Decision, watchdog
 		field.VerifSimYield = nil
 		field.VerifSimOnceDo = nil
 		field.VerifSimMutex = nil
+		field.VerifSimTry = nil
 	}
 	// (after a deadlock or step cap tasks are still parked inside the library: the
 	// hooks stay in place, the process is about to report and exit)
